@@ -16,7 +16,7 @@ from __future__ import annotations
 import itertools
 import json
 
-from .. import core, iso, lean
+from .. import core, enc, iso, lean
 from ..runner import Result
 
 ID = "C10"
@@ -638,11 +638,122 @@ def evaluate(jobs, res):
         judge(res, spec, call, ro["calls"][ci], models)
 
 
+# ---- callables whose own signature is not that of a plain `def` (oracle only): methods without a named self, class / static
+# methods, partials, functions with __wrapped__ / __signature__; the reference is Python's own binding + typelib.unmarshal
+ODD_SRC = """
+import decimal, functools, inspect
+class Registry:
+    def selfless(*args: int, **kw: float):
+        return ("selfless", args[1:], kw)
+    @classmethod
+    def clsless(*args: int, **kw: float):
+        return ("clsless", args[1:], kw)
+    def selfless_kwonly(*args: decimal.Decimal, flag: int, **kw: float):
+        return ("selfless_kwonly", args[1:], flag, kw)
+    @classmethod
+    def cm(cls, a: int, /, b: float = 1.0, *rest: str, k: int = 0):
+        return ("cm", a, b, rest, k)
+    @staticmethod
+    def sm(a: int, *rest: float, **kw: str):
+        return ("sm", a, rest, kw)
+    def plain(self, a: int, b: decimal.Decimal = decimal.Decimal(1), *, k: float = 0.0):
+        return ("plain", a, b, k)
+def base(a: int, b: float, *rest: int, k: str = "k", **kw: int):
+    return ("base", a, b, rest, k, kw)
+part = functools.partial(base, 1)
+def deco(f):
+    @functools.wraps(f)
+    def inner(*a, **k):
+        return f(*a, **k)
+    return inner
+wrapped = deco(base)
+def factory(t):
+    def setter(value: t, *more: t, **named: t):
+        return ("setter", value, more, named)
+    return setter
+set_int, set_dec = factory(int), factory(decimal.Decimal)
+reg = Registry()
+"""
+ODD_CALLS = [
+    ("reg.selfless", ("1", "2"), {"x": "3.5"}), ("reg.selfless", ("7",), {}), ("Registry.clsless", ("8", "9"), {"z": "1"}),
+    ("reg.selfless_kwonly", ("1.10",), {"flag": "7", "y": "2"}), ("reg.cm", ("1", "2", 3, 4), {"k": "5"}), ("Registry.cm", ("1",), {}),
+    ("reg.sm", ("1", "2", "3"), {"q": 4}), ("Registry.sm", ("1",), {}), ("reg.plain", ("1", "2.5"), {"k": "3"}), ("reg.plain", ("1",), {"b": "7"}),
+    ("Registry.plain", (None, "1", "2"), {}), ("base", ("1", "2", "3", "4"), {"k": 5, "z": "6"}), ("wrapped", ("1", "2"), {"k": 5}),
+    ("set_int", ("1", "2"), {"x": "3"}), ("set_dec", ("1.50", "2.25"), {"x": "3"}), ("set_int", ("4",), {}),
+    ("reg.selfless_kwonly", ("1",), {}),       # Python rejects: missing keyword-only argument
+]
+
+
+def _odd_child(_job):
+    import inspect
+    import sys
+    import types
+    import warnings
+    warnings.simplefilter("ignore")
+    import typelib
+    from typelib import binding
+    mod = types.ModuleType("vm_c10_odd")
+    sys.modules["vm_c10_odd"] = mod
+    exec(ODD_SRC, mod.__dict__)
+    out = []
+
+    def conv(ann, v):
+        return v if ann is inspect.Parameter.empty else typelib.unmarshal(ann, v)
+    for expr, args, kwargs in ODD_CALLS:
+        f = eval(expr, mod.__dict__)
+        rec = {"callable": expr, "args": repr(args), "kwargs": repr(kwargs)}
+        try:
+            sig = inspect.signature(f)
+            ba = sig.bind(*args, **kwargs)
+            for name, val in list(ba.arguments.items()):
+                p = sig.parameters[name]
+                if p.kind is p.VAR_POSITIONAL:
+                    ba.arguments[name] = tuple(conv(p.annotation, x) for x in val)
+                elif p.kind is p.VAR_KEYWORD:
+                    ba.arguments[name] = {k: conv(p.annotation, x) for k, x in val.items()}
+                else:
+                    ba.arguments[name] = conv(p.annotation, val)
+            exp = ("ok", repr(f(*ba.args, **ba.kwargs)))
+        except TypeError:
+            exp = ("err", "type")
+        except Exception as e:  # noqa: BLE001
+            exp = ("err", enc.err_class(e))
+        for how, g in (("bind", lambda: binding.bind(f)), ("wrap", lambda: binding.wrap(f))):
+            try:
+                got = ("ok", repr(g()(*args, **kwargs)))
+            except TypeError:
+                got = ("err", "type")
+            except Exception as e:  # noqa: BLE001
+                got = ("err", enc.err_class(e))
+            rec[how] = got
+        rec["expected"] = exp
+        out.append(rec)
+    return out
+
+
+def odd_callables_probe(res):
+    from .. import core, iso
+    core.import_typelib()
+    out = iso.map_isolated(_odd_child, [None], timeout=120)[0]
+    if not isinstance(out, list):
+        raise RuntimeError(f"harness: odd-callables probe failed: {out}")
+    for rec in out:
+        res.case({"callable": rec["callable"], "args": rec["args"], "kwargs": rec["kwargs"]}, True)
+        for how in ("bind", "wrap"):
+            if rec[how] != rec["expected"]:
+                res.failures.append({"what": f"{how}({rec['callable']})(*{rec['args']}, **{rec['kwargs']}) gave {rec[how]}; every argument converted "
+                                             f"per the parameter it binds to gives {rec['expected']}",
+                                     "input": {"odd_callable": rec["callable"], "args": rec["args"], "kwargs": rec["kwargs"]}})
+            else:
+                res.count("oracle:odd-callable-ok")
+
+
 def explore(ctx):
     res = Result()
     res.rule = RULE
     jobs = build_jobs(ctx)
     evaluate(jobs, res)
+    odd_callables_probe(res)
     rows = {k.split(":")[1] for k in res.stats if k.startswith("row:")}
     res.extra["presence_rows_covered"] = len(rows)
     return res
@@ -654,6 +765,13 @@ def witness(fid):
 
 def replay(failure):
     inp = failure["input"]
+    if "odd_callable" in inp:
+        from .. import core, iso
+        core.import_typelib()
+        out = iso.map_isolated(_odd_child, [None], timeout=120)[0]
+        bad = [r for r in out if r["callable"] == inp["odd_callable"] and (r["bind"] != r["expected"] or r["wrap"] != r["expected"])]
+        print(json.dumps(bad, indent=1))
+        return bool(bad)
     spec = inp["spec"]
     call = inp.get("call") or {"n": 0, "kw": []}
     res = Result()
